@@ -8,6 +8,16 @@ NOTE = ("Trusted: Lean 4.33 kernel (axioms per theorem audited, allowed propext/
 CORR = ("Correspondence: Tie A certificates (every reachable state x 256 bytes x both anchorings of every real build, checked by the "
         "Lean-proved certOk against the ideal automaton / the noncontiguous NFA) and Tie B differential lines (harness vs acdrv).")
 CHECKS = {
+ "C06": ("proof",
+         "C06_rabinkarp, C06_teddy, C06_packed, C06_iter: for every non-empty pattern list without empty patterns, both packed match "
+         "kinds, every variant (Rabin-Karp; slim Teddy 128/256-bit incl. the 128-bit fallback; fat Teddy; 1-4 byte fingerprints), every "
+         "haystack and span, the functional model of src/packed returns THE leftmost-first / leftmost-longest occurrence (IsFind) and its "
+         "iterator the specification's iterator. Proved: pattern order, rolling-hash identity mod 2^64, hash/fingerprint bucket sharing of "
+         "co-located patterns, nybble-mask soundness, lane algebra with carries, window schedule coverage incl. the overlapped final "
+         "window, verification order. PARTIAL with respect to the code in one respect: the SSSE3/AVX2 instructions are modelled lane-wise "
+         "(trusted, bound by the crate's own vector unit tests and by this differential). Differential against packed::Searcher for every "
+         "Config the CPU supports, haystack lengths around 16/32/48, matches at every offset modulo the vector width.", "5 C06",
+         "Lean proof on a lane-level functional model of Teddy / Rabin-Karp + differential against every packed variant"),
  "C17": ("other",
          "PARTIAL. Model: the searcher is an immutable value; C17_handles_independent proves that what a caller observes on its own "
          "OverlappingState handle in ANY interleaved history equals running its own operations alone, and C17_finds_in_history that "
